@@ -104,6 +104,13 @@ func runC16(c *eng.Ctx) {
 			// only the edge inside cc ∧ hasExp
 			if g, _ := eng.GuardedBy(fn, e.From.Instrs[len(e.From.Instrs)-1], cc); g {
 				mm = append(mm, e)
+				continue
+			}
+			// one joined condition (`refused := control && m.Offset != -1 && offset != m.Offset`): the edge itself says all three
+			for _, ce := range cc {
+				if ce == e {
+					mm = append(mm, e)
+				}
 			}
 		}
 		q := &eng.PathQuery{Fn: fn, FromEdges: mm, Target: eng.IsCallTo("encoding/binary.Write", "bytes.Buffer.Write")}
@@ -113,8 +120,15 @@ func runC16(c *eng.Ctx) {
 		notCC := eng.BoolEdges(fn, eng.Param("concurrencyControl"), false)
 		noExp := append(eng.CmpEdges(fn, eng.LoadNamed("Offset", nil), eng.IntConst(-1), eng.EQ), predEdges(false)...)
 		same := eng.CmpEdges(fn, notConst, eng.LoadNamed("Offset", nil), eng.EQ)
+		// ... or, for one joined condition, the edge on which one of the three is known whichever way it came to be false
+		either := eng.EdgesWhere(fn, func(a eng.AtomView) bool {
+			if !a.Cmp {
+				return a.Val != nil && eng.Param("concurrencyControl")(a.Val) && !a.Pol
+			}
+			return a.RelHolds(eng.LoadNamed("Offset", nil), eng.IntConst(-1), eng.EQ) || a.RelHolds(notConst, eng.LoadNamed("Offset", nil), eng.EQ)
+		})
 		for _, wcall := range eng.CallsIn(fn, "encoding/binary.Write") {
-			g, wt := eng.GuardedBy(fn, wcall.(ssa.Instruction), append(append(append([]eng.Edge{}, notCC...), noExp...), same...))
+			g, wt := eng.GuardedBy(fn, wcall.(ssa.Instruction), append(append(append(append([]eng.Edge{}, notCC...), noExp...), same...), either...))
 			c.Check(g, "header written only after the expected-offset test passed", c.Pos(wcall.(ssa.Instruction)), "reached over ¬control ∨ waived ∨ equal", "a header field is written before the expected-offset test (path "+wt.String()+")")
 		}
 		// batches of more than one message panic under control
